@@ -10,7 +10,7 @@ extern "C" {
 typedef struct {
   uint64_t state;        /* canonical state hash at this choice point */
   uint8_t nen;           /* number of enabled threads (>= 2) */
-  uint8_t en[MS_MAXT];   /* enabled thread ids in canonical order: running thread first if enabled, then ascending */
+  uint8_t en[MS_MAXT];   /* enabled thread ids in canonical order: running thread first if enabled, then ascending; 0x80|id = spurious wake-up of id */
   uint8_t chosen;        /* index into en[] */
   uint8_t running_enabled;
   uint8_t ops[MS_MAXT];  /* pending op kind of each enabled thread (for readable traces) */
